@@ -20,7 +20,7 @@ import (
 // must fail and which must complete.
 
 var c27ServerScen = []string{"trusted", "untrusted", "expired", "notyet", "wrongname", "wrongkey", "badsig", "nointer", "ip_ok", "ip_mismatch", "expired_root", "root_still_valid",
-	"pathlen", "under_leaf", "resume_ok", "resume_expired", "cn_without_dns_san", "odd_eku", "forged_leaf", "forged_inter", "name_prefix", "no_certsign", "eku_date_mix"}
+	"pathlen", "under_leaf", "resume_ok", "resume_expired", "cn_without_dns_san", "odd_eku", "forged_leaf", "forged_inter", "name_prefix", "no_certsign", "eku_date_mix", "wrongkey_type", "probe_then_verify"}
 var c27ClientScen = []string{"none", "trusted", "untrusted", "expired", "wrongkey", "badsig", "pathlen", "under_leaf", "odd_eku", "forged_leaf", "no_certsign", "eku_date_mix"}
 
 type c27Scenario struct {
@@ -146,7 +146,7 @@ func genC27(seed uint64, tier string) any {
 		break
 	}
 	sc.Key = keyForSuite(r, suiteByID[sc.Suite], sc.Version)
-	sc.ServerScen = c27ServerScen[r.Pick([]int{9, 1, 1, 1, 1, 2, 2, 1, 1, 1, 1, 1, 1, 1, 1, 2, 1, 1, 1, 1, 1, 1, 1})]
+	sc.ServerScen = c27ServerScen[r.Pick([]int{9, 1, 1, 1, 1, 2, 2, 1, 1, 1, 1, 1, 1, 1, 1, 2, 1, 1, 1, 1, 1, 1, 1, 2, 1})]
 	sc.AuthMode = r.Intn(5)
 	sc.ClientScen = c27ClientScen[r.Pick([]int{2, 3, 1, 1, 2, 2, 1, 1, 1, 1, 1, 1})]
 	sc.ClientKey = []string{"rsa", "p256", "p384", "ed"}[r.Pick([]int{3, 3, 1, 2})]
@@ -168,7 +168,7 @@ func c27Table(sc *c27Scenario) c27Expect {
 	e := c27Expect{Applicable: true}
 	si := suiteByID[sc.Suite]
 	switch sc.ServerScen {
-	case "trusted", "ip_ok", "root_still_valid", "resume_ok", "resume_expired": // resume_expired: the second connection is judged in execC27
+	case "trusted", "ip_ok", "root_still_valid", "resume_ok", "resume_expired", "probe_then_verify": // resume_expired, probe_then_verify: the second connection is judged in execC27
 	case "badsig":
 		if si.Kx == kxRSA {
 			// RSA key exchange carries no server signature; possession is proven by decryption ("wrongkey" covers it)
@@ -219,7 +219,7 @@ func execC27(t *testing.T, scAny any, keepLog bool) *Outcome {
 		run := newSimRun(sc.Seed, sc.Tape, keepLog)
 		s := run.S
 		p := pki()
-		history := sc.ServerScen == "resume_ok" || sc.ServerScen == "resume_expired"
+		history := sc.ServerScen == "resume_ok" || sc.ServerScen == "resume_expired" || sc.ServerScen == "probe_then_verify"
 		ecfg := EndCfg{MinVersion: sc.Version, MaxVersion: sc.Version, Suites: []uint16{sc.Suite}, ForceSuites: true, KeyKind: sc.Key, NoTickets: !history}
 		scfg := serverConfig(ecfg, s, run.R.Derive("srv-rand"))
 		ccfg := clientConfig(ecfg, s, run.R.Derive("cli-rand"))
@@ -272,6 +272,19 @@ func execC27(t *testing.T, scAny any, keepLog bool) *Outcome {
 		case "forged_inter":
 			// the intermediate names the trusted (ECDSA) root as its issuer but was signed with another key
 			scfg.Certificates = []tls.Certificate{{Certificate: [][]byte{p.ServerUnderForged[kind].DER, p.ForgedInter.DER}, PrivateKey: kit.TLSKey(keyOfKind[kind])}}
+		case "wrongkey_type":
+			// a trusted, correctly named chain whose leaf key is of another type than the key the server holds and
+			// signs (or decrypts) with: the suite's authentication method does not match the certificate
+			other := map[string]string{"rsa": "p256", "p256": "rsa", "p384": "rsa", "ed": "rsa"}[kind]
+			scfg.Certificates = []tls.Certificate{tlsCert(p.Server[other], true, keyOfKind[kind])}
+			o.count("fault.wrong_key_type_server", 1)
+		case "probe_then_verify":
+			// first an application probes the server without verification (InsecureSkipVerify) and caches the session;
+			// the server's certificate chains to the trusted root but names another host. A later verifying
+			// connection of the same application (same cache, same ServerName) must not get through on that session.
+			scfg.Certificates = []tls.Certificate{tlsCert(p.ServerWrongName[kind], true, keyOfKind[kind])}
+			ccfg.ClientSessionCache = tls.NewLRUClientSessionCache(4)
+			ccfg.InsecureSkipVerify = true
 		case "name_prefix":
 			// the certificate's only name has fewer labels than the server name and equals / wildcard-matches its leading labels
 			scfg.Certificates = []tls.Certificate{tlsCert(p.ServerPrefix[kind][int(sc.Seed>>4)%3], true, keyOfKind[kind])}
@@ -367,6 +380,14 @@ func execC27(t *testing.T, scAny any, keepLog bool) *Outcome {
 				}
 			} else {
 				d := 29 * 24 * time.Hour
+				if sc.ServerScen == "probe_then_verify" {
+					d = 0
+					ccfg = ccfg.Clone()
+					ccfg.InsecureSkipVerify = false
+					exp.ClientMustFail, exp.ServerMustFail = true, true
+					exp.Reason = "server certificate names another host (second, verifying connection; the session of an unverified probe is cached)"
+					o.count("fault.unverified_probe_session_cached", 1)
+				}
 				if sc.ServerScen == "resume_expired" {
 					d = 32*24*time.Hour + time.Hour
 					exp.ClientMustFail, exp.ServerMustFail = true, true
